@@ -16,7 +16,7 @@ for d in /verif/benign/$name/refactor*.diff; do
   mkdir -p $scratch/verif; cp /verif/known_findings.jsonl $scratch/verif/
   if ! (cd $scratch/src && patch -p1 -s --no-backup-if-mismatch -i "$d"); then echo "does not apply"; rm -rf $scratch; rc=1; continue; fi
   (cd $scratch/src && go build ./... ) || echo "BUILD FAILS"
-  alarms=$(cd /verif && ./bin/xcheck -prop all -repo $scratch/src -verif $scratch/verif 2>&1 | grep -E "^(VIOLATED|UNDECIDED|CHECKER)" | cut -c1-320 | sed -E 's/^(VIOLATED|UNDECIDED) (C[0-9]+)/\2 ALARM: \1 \2/; s/^(CHECKER-[A-Z]+) property=(C[0-9]+)/\2 ALARM: \1 \2/' | sort)
+  alarms=$(cd /verif && ${XCHECK:-/verif/bin/xcheck} -prop all -repo $scratch/src -verif $scratch/verif 2>&1 | grep -E "^(VIOLATED|UNDECIDED|CHECKER)" | cut -c1-320 | sed -E 's/^(VIOLATED|UNDECIDED) (C[0-9]+)/\2 ALARM: \1 \2/; s/^(CHECKER-[A-Z]+) property=(C[0-9]+)/\2 ALARM: \1 \2/' | sort)
   [ -n "$alarms" ] && { echo "$alarms" | sed "s#$scratch/src/##g"; rc=1; }
   rm -rf $scratch
 done
